@@ -112,7 +112,11 @@ def run(tier, seed):
                         ck.fail('a parser module was imported although plugins are disabled', rp, 'skip_plugins')
                     if allow and not attempted <= allowed:
                         ck.fail('a parser module other than the one named by creator/component was consulted', rp | {'unexpected': sorted(attempted - allowed)}, 'dispatch')
-                    compare(ck, p, data, real, model, spec, label='plugins', allow_plugins=allow, env_kwargs=dict(allow=allow, ud=UD_FIX, src=SRC_FIX, callout=CO_FIX))
+                    nonascii = allow and chr(p['ph']['creator']) == 'x' and any(s_['kind'] == 'ud' and s_['hdr']['comp'] == 0x7E7E for s_ in p['sections']) and ck.dist.get('forced: parser answering in non-ASCII text', 0) < 3
+                    if nonascii:
+                        ck.count('forced: parser answering in non-ASCII text')
+                    compare(ck, p, data, real, model, spec, label='plugins', allow_plugins=allow, extra={'force_routes': nonascii},
+                            env_kwargs=dict(allow=allow, ud=UD_FIX, src=SRC_FIX, callout=CO_FIX))
             finally:
                 env.uninstall()
         # ---- the shipped I/O-drawer plugin
